@@ -5,6 +5,7 @@ import (
 	"go/ast"
 	"go/parser"
 	"go/token"
+	"go/types"
 	"path/filepath"
 	"regexp"
 	"strconv"
@@ -278,4 +279,63 @@ func runPrintSlots(p *Program, r *RuleResult) {
 		}
 	}
 	r.count("field/slot pairs checked", nChecked)
+}
+
+// R-PRINT-PURE (C15): printing a term does not change it and depends only on it.
+func init() {
+	register(&Rule{Name: "R-PRINT-PURE", Min: 30,
+		Doc: "the String methods of the form and type constructors (and the helpers in their own package that they call with the receiver) store nothing into the term they print: a printer that caches its text in the term keeps printing the old text after a substitution, so two different terms print alike",
+		Run: runPrintPure})
+}
+
+func runPrintPure(p *Program, r *RuleResult) {
+	n := 0
+	for _, iface := range []*types.Named{p.Named(processPkg, "Form"), p.Named(typesPkg, "SessionType")} {
+		for _, T := range p.Implementers(iface) {
+			for _, mname := range []string{"String", "StringShort", "StringWithModality", "StringWithOuterModality"} {
+				fn := p.MethodOpt(T, mname)
+				if fn == nil || fn.Blocks == nil {
+					continue
+				}
+				n++
+				bad := ""
+				recv := fn.Params[0]
+				for _, b := range fn.Blocks {
+					for _, in := range b.Instrs {
+						st, ok := in.(*ssa.Store)
+						if !ok {
+							continue
+						}
+						// a store through the receiver
+						root := st.Addr
+						for d := 0; d < 6; d++ {
+							switch x := root.(type) {
+							case *ssa.FieldAddr:
+								root = x.X
+								continue
+							case *ssa.IndexAddr:
+								root = x.X
+								continue
+							case *ssa.UnOp:
+								root = x.X
+								continue
+							}
+							break
+						}
+						if root == ssa.Value(recv) {
+							_, f, _ := fieldNameOf(st.Addr)
+							bad = fmt.Sprintf("it stores into the term it prints (field %s at %s)", f, p.instrPos(st))
+						}
+					}
+				}
+				construct := "printer:" + mname
+				if bad != "" {
+					r.add(fnName(fn), construct, Violated, p.pos(fn.Pos()), bad+": the printed text is no longer a function of the term alone (a cached text survives substitutions)")
+				} else {
+					r.add(fnName(fn), construct, Holds, p.pos(fn.Pos()), "")
+				}
+			}
+		}
+	}
+	r.count("printer methods", n)
 }
